@@ -140,7 +140,18 @@ def report(prop, verdict, res):
 
 def replay_one(prop, path, seed):
     from common import read_json
-    rp = read_json(path)["replay"]
+    doc = read_json(path)
+    rp = doc["replay"]
+    if rp.get("kind") == "cfg-program":
+        # programs of the Cfg.tla check derive from the seed: that check is repeated
+        import cfgmodel
+        from common import Verdict
+        v = Verdict(prop, doc.get("tier", "quick"), doc.get("seed", seed))
+        n = cfgmodel.report(prop, v, cfgmodel.run(doc.get("tier", "quick"), doc.get("seed", seed)))
+        print(json.dumps({"cfg_model_violations": n}))
+        if n:
+            print(f"VIOLATION property={prop} replay={path}")
+        return 1 if n else 0
     wd = workdir("symvm-replay")
     tp = os.path.join(wd, "one.ndjson")
     args = ["vm-one", "--hex", rp["hex"], "--L", rp["L"], "--F", rp["F"], "--G", rp["G"], "--out", tp]
